@@ -1262,7 +1262,7 @@ func (n RangeNumber) IsMax() bool {
 }
 
 func (n RangeNumber) IsMin() bool {
-	return n.isMax
+	return n.isMin
 }
 
 func (n RangeNumber) Integer() *int64 {
@@ -1322,6 +1322,14 @@ func (n RangeNumber) getFloat64() float64 {
 }
 
 func (n RangeNumber) Compare(v val.Value) (int64, error) {
+	if n.isMin {
+		// 'min' is the lowest value of the base type: never above any value
+		return -1, nil
+	}
+	if n.isMax {
+		// 'max' is the highest value of the base type: never below any value
+		return 1, nil
+	}
 	if v.Format().IsList() {
 		var cmp0 int64
 		var err0 error
@@ -1353,6 +1361,10 @@ func (n RangeNumber) Compare(v val.Value) (int64, error) {
 			}
 			return 0, nil
 		case val.FmtUInt64:
+			if (n.integer != nil && *n.integer < 0) || (n.float != nil && *n.float < 0) {
+				// a negative bound is below every unsigned value
+				return -1, nil
+			}
 			a := n.getUnit64()
 			b := v.Value().(uint64)
 			if a < b {
@@ -1364,6 +1376,10 @@ func (n RangeNumber) Compare(v val.Value) (int64, error) {
 			return 0, nil
 		default:
 			if i, ok := v.(val.Int64able); ok {
+				if n.unsigned != nil {
+					// only numbers beyond int64 are kept unsigned: above every such value
+					return 1, nil
+				}
 				a := n.getInt64()
 				b := i.Int64()
 				if a < b {
